@@ -106,6 +106,54 @@ def check(repo: Repo, rep: Report) -> None:
                        f"L{f.use_stage} in {f.user.qual}: the state is shared by all subscriptions of one observable, "
                        f"so a second subscription does not start fresh")
             rep.ob("E1-no-early-state", S, f"{nb} bindings of {S.qual}", True, nontrivial=nb > 0)
+    # seeds are shared, accumulators must not update them in place
+    rep.rule("E1-pure-accumulator", "an accumulator handed to scan / reduce together with a seed *object* built once per application "
+                                    "does not mutate its accumulation argument in place", floor=1)
+    from ..model import resolve_callable as _rc
+    from ..engines.staging import MUT_METHODS as _MUT
+    n_acc = 0
+    for mod in repo.modules.values():
+        if not mod.rel.startswith(SCOPE) or mod.rel.startswith(SKIP):
+            continue
+        for S in mod.root.walk():
+            if not S.is_func or m.stage.get(S, 0) > 1:
+                continue
+            for n in S.direct_nodes():
+                if not (isinstance(n, _ast.Call) and _cn(n) in ("scan", "reduce", "aggregate") and len(n.args) + len(n.keywords) >= 2):
+                    continue
+                acc = n.args[0] if n.args else None
+                seed = n.args[1] if len(n.args) > 1 else next((k.value for k in n.keywords if k.arg == "seed"), None)
+                t = _rc(S, acc) if acc is not None else None
+                if t is None or t.kind != "fn" or seed is None:
+                    continue
+                # is the seed an object (not an immutable constant) created at this (early) stage?
+                sv = seed
+                if isinstance(sv, _ast.Name):
+                    ks = st.alloc_kinds(S, sv.id) if S.owner(sv.id) is S else []
+                    sv_nodes = [getattr(a, 'value', a) for _, _, a in ks]
+                else:
+                    sv_nodes = [sv]
+                is_obj = any(isinstance(x, (_ast.Call, _ast.List, _ast.Dict, _ast.Set, _ast.ListComp, _ast.DictComp)) and
+                             not (isinstance(x, _ast.Call) and _cn(x) in ("cast", "int", "float", "str", "tuple", "frozenset", "bool"))
+                             for x in sv_nodes)
+                if not is_obj:
+                    continue
+                n_acc += 1
+                a0 = t.fn.positional_params[0] if t.fn.positional_params else None
+                muts = []
+                for x in t.fn.direct_nodes():
+                    if isinstance(x, (_ast.Assign, _ast.AugAssign)):
+                        for tg in (x.targets if isinstance(x, _ast.Assign) else [x.target]):
+                            if isinstance(tg, (_ast.Attribute, _ast.Subscript)) and isinstance(tg.value, _ast.Name) and tg.value.id == a0:
+                                muts.append(x)
+                    if isinstance(x, _ast.Call) and isinstance(x.func, _ast.Attribute) and isinstance(x.func.value, _ast.Name) \
+                            and x.func.value.id == a0 and x.func.attr in _MUT:
+                        muts.append(x)
+                rep.ob("E1-pure-accumulator", S, f"{S.qual}: {_short(n, 50)} -- accumulator `{t.fn.name}` leaves its seed `{_short(seed, 30)}` untouched", not muts,
+                       f"the accumulator `{t.fn.name}` updates its accumulation argument in place ({[_short(x, 30) for x in muts]}), and the seed "
+                       f"`{_short(seed, 30)}` is one object built when the operator is applied: every subscription starts from the totals the "
+                       f"previous subscriptions left in it")
+    rep.extra["accumulator_seed_pairs"] = n_acc
     rep.extra["scopes_analysed"] = n_scopes
     rep.extra["bindings_analysed"] = n_bind
     rep.extra["exemptions_applied"] = sorted(exempt_hit)
